@@ -603,8 +603,11 @@ func (e *Explorer) explore(prefix []int) {
 	if e.Remote != nil {
 		x, ok = e.Remote(prefix)
 		if x == nil {
+			// (nil, false): no budget left - stop; (nil, true): this one schedule could not be replayed - skip it
 			e.res.Capped = true
-			e.stop = true
+			if !ok {
+				e.stop = true
+			}
 			return
 		}
 		e.res.Execs++
